@@ -124,7 +124,21 @@ def gen(args) -> list:
                 e = s
 
             def mk(ns):
-                return None if ns is None else Instant._ctor(days=ns // proj.NPD, nano_of_day=ns % proj.NPD)
+                if ns is None:
+                    return None
+                if rnd.random() < 0.25 and imin + 3 * proj.NPD < ns < imax - 3 * proj.NPD:
+                    # the same instant as the result of arithmetic (an instant is the point on the time line, however it was arrived at):
+                    # an earlier instant plus a duration, the two times of day often adding up to exactly one day
+                    x = rnd.randrange(1, proj.NPD)
+                    y = (ns - x) % proj.NPD if rnd.random() < 0.5 else proj.NPD - x
+                    a = ns - y - rnd.randint(0, 2) * proj.NPD
+                    if a % proj.NPD == x or rnd.random() < 0.5:
+                        try:
+                            r = Instant._ctor(days=a // proj.NPD, nano_of_day=a % proj.NPD) + Duration._ctor(days=(ns - a) // proj.NPD, nano_of_day=(ns - a) % proj.NPD)
+                            return r
+                        except Exception:  # noqa: BLE001
+                            pass
+                return Instant._ctor(days=ns // proj.NPD, nano_of_day=ns % proj.NPD)
 
             ev = {"op": "iv", "s": IMIN if s is None else proj.t3_from_ns(s), "e": IMAX if e is None else proj.t3_from_ns(e)}
             try:
